@@ -84,6 +84,17 @@ def die(key, code=-9):
     raise K.SimKilled()
 
 
+def spawn_child(key, n=1):
+    """The task starts n long-lived descendant processes of its worker and returns."""
+    _log("body", key)
+    s = K.S
+    me = s.cur.proc
+    for i in range(n):
+        sp = s.new_proc(f"desc#{me.label}.{key}.{i}", me)
+        s.spawn(lambda: s.point(lambda: False, label="desc.sleep"), "main", sp, is_main=True)
+    return (key, "spawned")
+
+
 class BigResult:
     def __init__(self, key, n):
         self.key, self.n = key, n
@@ -148,6 +159,34 @@ class IndexErrArg:
 class KeyErrArg:
     def __reduce__(self):
         raise KeyError("pickling raises KeyError")
+
+
+def _raising_arg(name, make):
+    """An argument class whose pickling raises the exception built by make()."""
+    def __reduce__(self):
+        raise make()
+    return type(name, (), {"__reduce__": __reduce__, "__module__": __name__})
+
+
+import errno as _errno
+EXC_ARGS = {
+    "oserror": lambda: FileNotFoundError(_errno.ENOENT, "backing file is gone"),
+    "epipe": lambda: BrokenPipeError(_errno.EPIPE, "Broken pipe (raised by the argument)"),
+    "ebadf": lambda: OSError(_errno.EBADF, "Bad file descriptor (raised by the argument)"),
+    "timeouterr": lambda: TimeoutError("pickling timed out"),
+    "eof": lambda: EOFError("pickling raises EOFError"),
+    "stopiter": lambda: StopIteration("pickling raises StopIteration"),
+    "attr": lambda: AttributeError("pickling raises AttributeError"),
+    "type": lambda: TypeError("pickling raises TypeError"),
+    "assert": lambda: AssertionError("pickling raises AssertionError"),
+    "memory": lambda: MemoryError("pickling raises MemoryError"),
+    "recursion": lambda: RecursionError("pickling raises RecursionError"),
+    "kbintp": lambda: KeyboardInterrupt("pickling raises KeyboardInterrupt"),
+    "genexit": lambda: GeneratorExit("pickling raises GeneratorExit"),
+}
+EXC_ARG_CLASSES = {k: _raising_arg("Raises_" + k, v) for k, v in EXC_ARGS.items()}
+for _c in EXC_ARG_CLASSES.values():
+    globals()[_c.__name__] = _c
 
 
 class HugeArg:
